@@ -55,7 +55,8 @@ TABLE = {
         "module": "AcqVerif.Props.C09",
         "theorems": ["AcqVerif.C09.nothing_appended_after_failed_append", "AcqVerif.C09.failed_storage_not_running",
                      "AcqVerif.C09.no_frame_call_after_failed_frame_call", "AcqVerif.C09.failed_camera_is_stopped", "AcqVerif.C09.one_stop_per_start",
-                     "AcqVerif.C09.not_running_once_workers_exited", "AcqVerif.C09.returned_means_clean"],
+                     "AcqVerif.C09.not_running_once_workers_exited", "AcqVerif.C09.returned_means_clean",
+                     "AcqVerif.C09.faulty_run_stores_a_prefix", "AcqVerif.C09.acquisition_after_a_failure_is_complete"],
         "classes": ["stofault", "camfault"],
         "kinds": ("append-after-failed", "get_frame-after-failed", "still-running-after", "state-", "never-returns", "stored-", "camera-delivered",
                   "device-", "CRASH"),
